@@ -48,6 +48,10 @@ impl Database {
         self.paths
             .par_iter()
             .map(|path| {
+                // a matcher of its own for every path: SkimMatcherV2 keeps buffers between
+                // calls, and with non-ASCII text a score depended on what the same matcher
+                // (the same worker thread) had matched before
+                let matcher = SkimMatcherV2::default();
                 (
                     path,
                     matcher.fuzzy_match(&path.search_text, query).unwrap_or(0),
